@@ -107,14 +107,15 @@ def stNext (a v : Nat) (want : Nat) : M Unit := do
   | _ => P.fail "bad ST"
 
 /-- `uatomic_xchg(loc, new, SEQ_CST)`: returns the old value token's address -/
-def xchg (loc : String) (new : Nat) (modelOld : Nat) : M Nat := do
+def xchg (loc : String) (new : Nat) (modelOld : State → Nat) : M Nat := do
   let r ← P.evAt "XCHG" loc
   match r with
   | [n, o, mo] =>
     if n != ptrTok new then P.fail s!"XCHG {loc}: new value {n}, expected {ptrTok new}"
     if !moOk mo 5 then P.fail s!"XCHG {loc}: weaker than seq_cst"
     let o ← ptr o
-    if o != modelOld then P.fail s!"XCHG {loc} returned {ptrTok o}, model has {ptrTok modelOld}"
+    let g ← P.get       -- (after the event: the state the model is in when this access happens)
+    if o != modelOld g.s then P.fail s!"XCHG {loc} returned {ptrTok o}, model has {ptrTok (modelOld g.s)}"
     pure o
   | _ => P.fail "bad XCHG"
 
@@ -171,8 +172,7 @@ partial def syncNext (t a : Nat) (blocking : Bool) (attempt : Nat := 0) : M (Opt
 
 /-- `___cds_wfcq_append(head, tail, new_head, new_tail)`; returns `old_tail != &head->node` -/
 def append (t q newHead newTail : Nat) (l : Label) : M Bool := do
-  let g ← P.get
-  let old ← xchg (tailLoc q) newTail (g.s.tail q)   -- old_tail = uatomic_xchg_mo(&tail->p, new_tail, CMM_SEQ_CST)
+  let old ← xchg (tailLoc q) newTail (fun s => s.tail q)   -- old_tail = uatomic_xchg_mo(&tail->p, new_tail, CMM_SEQ_CST)
   lab l
   stNext old newHead 3                               -- uatomic_store(&old_tail->next, new_head, CMM_RELEASE)
   lab (.stIssue t)
@@ -251,8 +251,7 @@ partial def splice (t dst src : Nat) (blocking : Bool) : M Res := do
   if (← emptyP t src) then do cover "splice_src_empty_fast"; pure .srcEmpty
   else
     let rec loop (attempt : Nat) : M (Option (Option Nat)) := do   -- some (some head) | some none = SRC_EMPTY | none = WOULDBLOCK
-      let g ← P.get
-      let h ← xchg (nextLoc src) 0 (g.s.next src)   -- head = uatomic_xchg_mo(&src_q_head->node.next, NULL, CMM_SEQ_CST)
+      let h ← xchg (nextLoc src) 0 (fun s => s.next src)   -- head = uatomic_xchg_mo(&src_q_head->node.next, NULL, CMM_SEQ_CST)
       lab (.s3 t)
       if h != 0 then pure (some (some h))
       else do
@@ -267,8 +266,7 @@ partial def splice (t dst src : Nat) (blocking : Bool) : M Res := do
     | some none => pure .srcEmpty
     | some (some h) => do
       legacyMb t
-      let g ← P.get
-      let tl ← xchg (tailLoc src) src (g.s.tail src)   -- tail = uatomic_xchg_mo(&src_q_tail->p, &src_q_head->node, SEQ_CST)
+      let tl ← xchg (tailLoc src) src (fun s => s.tail src)   -- tail = uatomic_xchg_mo(&src_q_tail->p, &src_q_head->node, SEQ_CST)
       lab (.s5 t)
       let ne ← append t dst h tl (.s6 t)
       cover (if ne then "splice_dest_nonempty" else "splice_dest_empty")
